@@ -85,6 +85,7 @@ func goFacts(p *pkgInfo) string {
 	var callArgStores, frameCellInits, goStmts, newFrameCalls []string
 	callBinGoArg := un("callBin go branch")
 	callBinGoStmt := un("callBin go statement")
+	callBinGoArgsCopied := false
 	getFuncClones, getFuncAncIsClone, getFuncStoreLocked, getFuncRestoreLocked := false, false, false, false
 	cloneLocked, cloneCopiesData := false, false
 	selectDoneLocked := false
@@ -180,11 +181,20 @@ func goFacts(p *pkgInfo) string {
 				if !ok || len(cc.List) != 1 || exprString(cc.List[0]) != "n.anc.kind == goStmt" {
 					return true
 				}
+				fresh, set := false, false
+				defer func() { callBinGoArgsCopied = fresh && set }()
 				ast.Inspect(cc, func(y ast.Node) bool {
 					switch s := y.(type) {
+					case *ast.ExprStmt:
+						if strings.HasPrefix(exprString(s.X), "in[i].Set(") {
+							set = true
+						}
 					case *ast.AssignStmt:
 						if len(s.Lhs) == 1 && exprString(s.Lhs[0]) == "in[i]" {
 							callBinGoArg = exprString(s.Rhs[0])
+							if strings.HasPrefix(callBinGoArg, "reflect.New(") {
+								fresh = true
+							}
 						}
 					case *ast.GoStmt:
 						callBinGoStmt = exprString(s)
@@ -283,9 +293,9 @@ func goFacts(p *pkgInfo) string {
 
 	var b strings.Builder
 	b.WriteString("open YaegiVerif.ConcFrames in\n/-- interp/run.go call, callBin, getFunc, genFunctionWrapper, _select; interp/interp.go frame.clone -/\ndef goFacts : GoFacts :=\n")
-	fmt.Fprintf(&b, "  { goBinArgsCopied := %s,\n    srcArgsCopied := %s,\n    frameInClosure := %s,\n    wrapperFramePerCall := %s,\n    callBinGoArg := %s,\n    callBinGoStmt := %s,\n    getFuncClones := %s,\n    getFuncAncIsClone := %s,\n    getFuncStoreLocked := %s,\n    getFuncRestoreLocked := %s,\n    cloneLocked := %s,\n    cloneCopiesData := %s,\n    selectDoneLocked := %s,\n    casesPerStatement := %s,\n    callArgStores := %s,\n    frameCellInits := %s,\n    goStmts := %s,\n    newFrameCalls := %s }\n",
+	fmt.Fprintf(&b, "  { goBinArgsCopied := %s,\n    srcArgsCopied := %s,\n    frameInClosure := %s,\n    wrapperFramePerCall := %s,\n    callBinGoArgsCopied := %s,\n    callBinGoArg := %s,\n    callBinGoStmt := %s,\n    getFuncClones := %s,\n    getFuncAncIsClone := %s,\n    getFuncStoreLocked := %s,\n    getFuncRestoreLocked := %s,\n    cloneLocked := %s,\n    cloneCopiesData := %s,\n    selectDoneLocked := %s,\n    casesPerStatement := %s,\n    callArgStores := %s,\n    frameCellInits := %s,\n    goStmts := %s,\n    newFrameCalls := %s }\n",
 		boolLean(goBinArgsCopied), boolLean(srcArgsCopied), boolLean(frameInClosure), boolLean(wrapperFramePerCall),
-		common.LeanStr(callBinGoArg), common.LeanStr(callBinGoStmt),
+		boolLean(callBinGoArgsCopied), common.LeanStr(callBinGoArg), common.LeanStr(callBinGoStmt),
 		boolLean(getFuncClones), boolLean(getFuncAncIsClone), boolLean(getFuncStoreLocked), boolLean(getFuncRestoreLocked),
 		boolLean(cloneLocked), boolLean(cloneCopiesData), boolLean(selectDoneLocked), boolLean(casesPerStatement),
 		common.LeanStrList(callArgStores), common.LeanStrList(frameCellInits), common.LeanStrList(goStmts), common.LeanStrList(newFrameCalls))
